@@ -1758,6 +1758,15 @@ impl FunctionDef {
 
         self.check_arity(args.len())?;
 
+        #[cfg(feature = "verif-hooks")]
+        crate::verif_hooks::on_call(
+            self.get_name(),
+            matches!(self, FunctionDef::BuiltIn(_)),
+            this_value,
+            &args,
+            call_depth,
+        );
+
         if call_depth > 1000 {
             return Err(RuntimeError::new(format!(
                 "in {}: maximum call depth of 1000 exceeded",
